@@ -396,7 +396,7 @@ def machine(tier, stats, last_fail):
 
 
 def enumerate_cases(tier):
-    cases = [{"kind": "xproc"}]
+    cases = [{"kind": "xproc"}] + [{"kind": "interleave", "other": o} for o in ("construct-only", "same-request", "another-request")]
     # which request kinds get their stored entry cut: all footprint requests; offsets: sampled / all
     for i, (name, req) in enumerate(REQUESTS):
         if not req["footprint"]:
@@ -473,6 +473,75 @@ env.hard_exit(0)
 """
 
 
+_INTERLEAVE = r"""
+import sys, os
+sys.path.insert(0, sys.argv[1]); sys.path.insert(0, sys.argv[2])
+from pbt import env
+env.setup(chdir=True); env.import_bldfm()
+from pbt.props import c15
+from bldfm.cache import GreensFunctionCache
+cache = GreensFunctionCache(sys.argv[3])          # what every worker does first
+for i in [int(v) for v in sys.argv[4].split(",") if v]:
+    c15._solve(c15.REQUESTS[i][1], cache=cache)
+sys.stdout.write("done\n"); sys.stdout.flush()
+env.hard_exit(0)
+"""
+
+
+def _check_interleave(case):
+    """A second process opens the same directory (and solves there) while this one is in the middle of storing an entry:
+    the temporary file is written, the final name not yet in place.  Neither process may fail, both get the right answer."""
+    import numpy
+
+    out = Outcome()
+    out.label("interleaved-store", "other=" + case["other"])
+    i = NAMES.index("base")
+    others = {"construct-only": [], "same-request": [i], "another-request": [NAMES.index("meas_pt")]}[case["other"]]
+    d = tempfile.mkdtemp(prefix="c15-inter-", dir=str(env.scratch()))
+    orig = numpy.savez
+    child = {}
+
+    def savez(*a, **k):
+        r = orig(*a, **k)
+        if "r" not in child:  # once, after the temporary file has its full content
+            child["r"] = subprocess.run([sys.executable, "-c", _INTERLEAVE, str(env.SRC), str(env.VERIF), d,
+                                         ",".join(str(v) for v in others)], capture_output=True, text=True,
+                                        env=dict(os.environ, PYTHONHASHSEED="24680"), timeout=600)
+        return r
+
+    try:
+        from bldfm.cache import GreensFunctionCache
+
+        cache = GreensFunctionCache(d)
+        numpy.savez = savez
+        try:
+            got = _solve(REQUESTS[i][1], cache=cache)
+        except Exception as e:
+            out.bad(f"a solve whose store was overlapped by another process opening the directory ({case['other']}) raised "
+                    f"{type(e).__name__}: {e}")
+            got = None
+        finally:
+            numpy.savez = orig
+        if "r" not in child:
+            out.label("store-not-reached")
+            return out
+        if "done" not in child["r"].stdout:
+            out.bad(f"the overlapping process ({case['other']}) failed: {child['r'].stderr[-400:]}")
+        if got is not None and _same(got, _uncached(i)):
+            out.bad(f"overlapped solve differs from the uncached result: {_same(got, _uncached(i))}")
+        try:
+            again = _solve(REQUESTS[i][1], cache=GreensFunctionCache(d))
+            if _same(again, _uncached(i)):
+                out.bad(f"solve after an overlapped store differs from the uncached result: {_same(again, _uncached(i))}")
+        except Exception as e:
+            out.bad(f"solve after an overlapped store raised {type(e).__name__}: {e}")
+        out.nontrivial = True
+    finally:
+        numpy.savez = orig
+        shutil.rmtree(d, ignore_errors=True)
+    return out
+
+
 def _check_xproc(case):
     out = Outcome()
     out.label("cross-process")
@@ -508,6 +577,8 @@ def check_case(case):
         return _check_cuts(case)
     if case["kind"] == "xproc":
         return _check_xproc(case)
+    if case["kind"] == "interleave":
+        return _check_interleave(case)
     h = History()
     try:
         fails = []
